@@ -247,6 +247,37 @@ def check_nlp(spec, parts=("dynamics", "placement", "frame", "objective"), inst=
                 c.fail(name, "starting value cannot be read back: %s" % e)
                 continue
             nlp.prove_equal(name, got, ca.MX(exp))
+    if "pvals" in parts:
+        # C09: column k of a per-interval parameter is the value on interval k (include_last: column N at the final node);
+        # matrix-valued parameters keep their element layout; a later set_value replaces that parameter only
+        def pv(sym):
+            s = ca.MX(sym)
+            return ca.DM._raw(s.rows, s.cols, [opti._pval[x.decl().name()] for x in s.e])
+        for kind, lst in (("", meth.P), ("control", meth.P_control), ("control+", meth.P_control_plus)):
+            for i, P in enumerate(lst):
+                if (kind, i) not in spec.pvals:
+                    continue            # horizon parameters are checked through the rows that contain them
+                val = ca.DM(spec.pvals[(kind, i)])
+                base = "%s|sampling_method:SamplingMethod.set_parameter:ensures:value[%s%d]" % (inst, kind or "global", i)
+                if kind == "":
+                    nlp.prove_equal(base, pv(P), val)
+                else:
+                    ncol = ca.MX(P[0]).shape[1]
+                    for k in range(len(P)):
+                        nlp.prove_equal(base + "[column %d]" % k, pv(P[k]), val[:, k * ncol:(k + 1) * ncol])
+    if "scaling" in parts:
+        from .oracle import scaled_handles
+        for label, h, sc in scaled_handles(spec, meth):
+            h = ca.MX(h)
+            name = "%s|%s.add_variables:ensures:physical-is-declared-scale-times-own-solver-variable[%s]" % (inst, MOD[spec.method], label)
+            syms = []
+            for e in h.e:
+                names = [n for n in ca._consts(e) if n in ca._SYMS] if not ca.isnum(e) else []
+                syms.append(names[0] if len(names) == 1 else None)
+            if None in syms:
+                c.fail(name, "entry %s is not a function of exactly one solver variable" % ca._short(h.e[syms.index(None)]))
+                continue
+            nlp.prove_equal(name, h, ca.MX(sc) * ca.MX._raw(h.rows, h.cols, [z3.Real(n) for n in syms]))
     if "ss-states" in parts and spec.method == "SS":
         for k in range(spec.N + 1):
             nlp.prove_equal("%s|single_shooting:SingleShooting.add_constraints:ensures:state-is-propagated[%d]" % (inst, k), meth.X[k], orc.X[k])
